@@ -100,7 +100,8 @@ fn main() {
                 let spec = pool::Spec { id: 0, route, cfg: cfg.clone(), width, widths: vec![], html: html_bytes.clone(), want_dom: true };
                 println!("{}", pool::spec_to_line(&spec));
             } else {
-                let o = std::thread::Builder::new().stack_size(8 * 1024 * 1024).spawn(move || core::run_impl(&cfg, route, width, &html_bytes)).unwrap().join().unwrap();
+                let kib: usize = std::env::var("H2T_STACK_KIB").ok().and_then(|x| x.parse().ok()).unwrap_or(8 * 1024);
+                let o = std::thread::Builder::new().stack_size(kib * 1024).spawn(move || core::run_impl(&cfg, route, width, &html_bytes)).unwrap().join().unwrap();
                 println!("{:#?}", o);
             }
         }
